@@ -45,6 +45,8 @@ from vlib import build, distbuild  # noqa: E402
 # of spinning (measured: ~0.2 core per rank), so 16 ranks cost about as much
 # CPU as 3-4 busy threads.
 MAXRANKS = int(os.environ.get("VERIF_E4_RANKS", "16"))
+REPLAY_DIR = os.environ.get("VERIF_REPLAY_DIR",
+                            os.path.join(VERIF, "replays"))
 T0 = time.time()
 
 
@@ -413,13 +415,11 @@ class Runner:
                 fr = []
                 for i in range(0, len(ls) - 1, 2):
                     fn, loc = ls[i], ls[i + 1]
-                    if not re.search(r"/repo/(libcusp|libgluon|libdist|"
-                                     r"libgalois/include/galois/graphs)/",
-                                     loc):
+                    mm = COMPONENT_RE.search(loc)
+                    if not mm:
                         continue
                     short = short_fn(fn)
-                    fr.append("%s at %s" % (short,
-                                            loc.replace("/repo/", "")))
+                    fr.append("%s at %s" % (short, loc[mm.start() + 1:]))
                     if not where:
                         where = short
                     if len(fr) >= 3:
@@ -469,13 +469,11 @@ class Runner:
                     frames[cur] = []
                     continue
                 m = re.match(r"#\d+\s+(?:0x[0-9a-f]+ in )?(.*?) \(.*\) at "
-                             r"(/repo/\S+)", l)
-                if m and cur is not None and re.search(
-                        r"/repo/(libcusp|libgluon|libdist|"
-                        r"libgalois/include/galois/graphs)/", m.group(2)):
+                             r"(/\S+)", l)
+                mm = COMPONENT_RE.search(m.group(2)) if m else None
+                if mm and cur is not None:
                     frames[cur].append("%s at %s" % (
-                        short_fn(m.group(1)),
-                        m.group(2).replace("/repo/", "")))
+                        short_fn(m.group(1)), m.group(2)[mm.start() + 1:]))
             for th in sorted(frames):
                 if frames[th]:
                     parts.append("pid %d thread %d: %s" % (
@@ -492,6 +490,12 @@ class Runner:
             except OSError:
                 pass
         shutil.rmtree(self.paths(s)[0][:-3] + ".tmp", ignore_errors=True)
+
+
+# source files of the components these checks are about (the working tree may
+# live elsewhere than /repo: VERIF_REPO)
+COMPONENT_RE = re.compile(r"/(libcusp|libgluon|libdist|"
+                          r"libgalois/include/galois/graphs)/")
 
 
 def short_fn(fn):
@@ -777,7 +781,7 @@ def size_key(c, hosts):
 
 
 def replay_path(prop, key):
-    return os.path.join(VERIF, "replays", "%s-%s.json" % (
+    return os.path.join(REPLAY_DIR, "%s-%s.json" % (
         prop, hashlib.sha256(key.encode()).hexdigest()[:16]))
 
 
@@ -1070,7 +1074,7 @@ def run_check(a, prop, tier, exe, workdir, deadline_at):
                     "attempts); %s" % (st["attempts"], msg[-400:])))
 
     # ---- aggregate ---------------------------------------------------------
-    os.makedirs(os.path.join(VERIF, "replays"), exist_ok=True)
+    os.makedirs(REPLAY_DIR, exist_ok=True)
     key_to_replay = {}
     for key, lst in failures.items():
         lst.sort(key=lambda x: x[0])
